@@ -3,7 +3,9 @@ package props
 import (
 	"fmt"
 	"io"
+	"os"
 	"reflect"
+	"runtime"
 
 	"github.com/tdewolff/parse/v2/buffer"
 
@@ -74,6 +76,14 @@ func (m *c13) memHeld() (int, bool) {
 	return total, true
 }
 
+// liveHeap returns the live heap after a forced collection.
+func liveHeap() uint64 {
+	runtime.GC()
+	var ms runtime.MemStats
+	runtime.ReadMemStats(&ms)
+	return ms.HeapAlloc
+}
+
 func (m *c13) initProbes() {
 	m.rv = reflect.ValueOf(m.z).Elem()
 	b := m.rv.FieldByName("buf")
@@ -89,6 +99,9 @@ func (m *c13) initProbes() {
 			}
 			m.probesOK = ok
 		}
+	}
+	if os.Getenv("VERIF_NO_REFLECT") != "" {
+		m.probesOK = false // test switch: exercise the reflection-free fallback
 	}
 	if m.probesOK {
 		m.snap()
@@ -137,6 +150,9 @@ func (m *c13) afterOp(op int) *core.Violation {
 		for i := range m.helds {
 			m.helds[i].swaps++
 		}
+	}
+	if os.Getenv("VERIF_NO_REFLECT") != "" {
+		m.probesOK = false // test switch: exercise the reflection-free fallback
 	}
 	if m.probesOK {
 		m.snap()
@@ -700,6 +716,7 @@ func runC13Memory(ctx *core.Ctx) *core.Violation {
 	nextSample := L / 8
 	var atHalf, last int
 	var samples []int
+	var heapHalf uint64
 	for m.pos < L {
 		k := 1 + ops.Draw(maxTok)
 		for j := 0; j < k && m.pos < L; j++ {
@@ -755,8 +772,12 @@ func runC13Memory(ctx *core.Ctx) *core.Violation {
 			nextSample += L / 8
 			h, ok := m.memHeld()
 			if !ok {
-				ctx.Count("probe_memory_unmeasured")
-				return nil
+				// reflection probe unavailable (fields renamed): only the heap cross-check remains
+				ctx.Count("probe_memory_reflection_unavailable")
+				if heapHalf == 0 && m.pos >= L/2 {
+					heapHalf = liveHeap()
+				}
+				continue
 			}
 			ctx.L.Ev("mem", int64(h))
 			ctx.SigAdd(uint64(h))
@@ -770,11 +791,23 @@ func runC13Memory(ctx *core.Ctx) *core.Violation {
 			}
 			if atHalf == 0 && m.pos >= L/2 {
 				atHalf = h
+				heapHalf = liveHeap()
 			}
 		}
 	}
 	ctx.Add("probe_memory_samples", int64(len(samples)))
 	_ = last
+	// hook-free cross-check (no reflection, so it also sees memory retained outside the
+	// fields the probe knows): live heap after a forced GC at the half and at the end. The
+	// threshold is deliberately coarse (half the stream + 64 KiB) because heap numbers are
+	// not exactly reproducible; they never enter the digest.
+	if heapHalf != 0 {
+		heapEnd := liveHeap()
+		ctx.Count("probe_memory_heap_measured")
+		if heapEnd > heapHalf && heapEnd-heapHalf > uint64(L/2+64<<10) {
+			return m.viol("memory-grows-with-stream", "live heap grew by %d bytes over the second half of a %d-byte stream although every token was freed (discipline %d, lag %d; measured with runtime.MemStats after GC)", heapEnd-heapHalf, L, lagKind, lag)
+		}
+	}
 	// "instead of growing with the stream": whatever the constant is (with a lagged Free
 	// discipline and tiny reader chunks the pool legitimately keeps dozens of small blocks),
 	// the second half of the stream must not add to it. A leak grows linearly: end ~ 2 x half.
